@@ -10,9 +10,9 @@ namespace Kvql.Errors
 open Kvql Kvql.Generated
 
 /-- 70: the widest stretch of the query that is shown -/
-def winLen : Nat := errWindowLits.getD 1 70
+def winLen : Nat := errWinLen
 /-- 35: how much of the query is shown left of the error position -/
-def winLeft : Nat := errWindowLits.getD 2 35
+def winLeft : Nat := errWinLeft
 
 /-- number of leading ASCII white-space bytes (`len(query) - len(TrimLeftFunc(query, IsSpace))`) -/
 def leadBlanks (q : Bytes) : Nat := (q.takeWhile isSpaceByte).length
